@@ -40,6 +40,10 @@ func aesGCMDecrypt(key, cipherText, nonce []byte) ([]byte, error) {
 		return nil, err
 	}
 
+	// Open panics on a nonce of the wrong length
+	if len(nonce) != stream.NonceSize() {
+		return nil, errors.Errorf("invalid nonce length %v", len(nonce))
+	}
 	outText, err := stream.Open(nil, nonce, cipherText, []byte(gcmAdditionData))
 	if err != nil {
 		return nil, err
